@@ -658,3 +658,16 @@ UNITS += [
          funcs=[TPS + ": thread_pool_scheduler::sender::connect(Receiver&&) const&"], min_obligations=2,
          doc="F: connect hands the sender's scheduler, the receiver and the fallback annotation to the operation state"),
 ]
+
+
+# ---- C11 units reused: the per-OS-thread worker identity (thread_num_tss.cpp) -- which worker / pool a thread IS (C10: placement and
+# ---- "runs on a worker of that pool" are stated in these numbers; C15: the global number indexes the affinity masks)
+_c11 = {"UNITS": [], "VX_NO_REUSE": True}
+if not globals().get("VX_NO_REUSE"):
+    exec(compile(open("/verif/specs/C11/spec.py").read(), "/verif/specs/C11/spec.py", "exec"), _c11)
+for _u in _c11["UNITS"]:
+    if _u.name.startswith("tss."):
+        _u.name = "c11." + _u.name
+        _u.template = "../C11/" + _u.template
+        UNITS.append(_u)
+META["trusted_base"] = list(META.get("trusted_base", [])) + ["units c11.tss.* are the C11 units of the same name (specs/C11/tss.c)"]
